@@ -9,6 +9,9 @@ package util
 //	W <gz 0|1> <thr> <J|R> <hex json> -> <i> W <status> <gzip|-> <hex payload on the wire> <hex payload after
 //	                                      client decoding> <hex json.Marshal(value)> <hex returned indented text> <counted length>
 //	                                     (J: the text is decoded with UseNumber into any; R: passed as json.RawMessage)
+//	C <clients> <hex json array>      -> <i> C <n values> <n sent gzip> <comma list of indices whose decoded body != json.Marshal(value) | ->
+//	                                     the values are written concurrently by <clients> goroutines (value k by goroutine k mod clients)
+//	                                     through the real WriteJSON, AcceptsGzip on, threshold 4096, into a slow chunked ResponseWriter
 //	S <repo root>                     -> <i> S <file> <func> <1 if the function also calls json.MarshalIndent>
 //	                                     one line per call of JSONMinify outside tests, then <i> S end <n>
 
@@ -29,7 +32,9 @@ import (
 	"os"
 	"path/filepath"
 	"strings"
+	"sync"
 	"testing"
+	"time"
 
 	"github.com/tucats/ego/internal/cli/settings"
 	"github.com/tucats/ego/internal/defs"
@@ -159,6 +164,19 @@ func TestVerifC19(t *testing.T) {
 		case "S":
 			verifC19Sites(w, idx, f[1])
 
+		case "C":
+			if len(f) < 3 {
+				fmt.Fprintf(w, "%d C err short\n", idx)
+
+				continue
+			}
+
+			clients := 0
+			fmt.Sscan(f[1], &clients)
+
+			text, _ := hex.DecodeString(f[2])
+			verifC19Concurrent(w, idx, clients, text)
+
 		case "W":
 			if len(f) < 5 {
 				fmt.Fprintf(w, "%d W err short\n", idx)
@@ -227,6 +245,128 @@ func TestVerifC19(t *testing.T) {
 				verifC19Hex(want), verifC19Hex(indented), length)
 		}
 	}
+}
+
+// verifC19SlowWriter behaves like a network connection: Write has not finished reading the caller's
+// slice until the pieces have been handed over, one at a time, to a slow peer.
+type verifC19SlowWriter struct {
+	header http.Header
+	status int
+	body   bytes.Buffer
+}
+
+func (w *verifC19SlowWriter) Header() http.Header { return w.header }
+
+func (w *verifC19SlowWriter) WriteHeader(status int) { w.status = status }
+
+func (w *verifC19SlowWriter) Write(b []byte) (int, error) {
+	const pieces = 4
+
+	step := len(b)/pieces + 1
+
+	for start := 0; start < len(b); start += step {
+		time.Sleep(300 * time.Microsecond)
+
+		end := min(start+step, len(b))
+		w.body.Write(b[start:end])
+	}
+
+	return len(b), nil
+}
+
+func verifC19Concurrent(w io.Writer, idx int, clients int, text []byte) {
+	var raws []json.RawMessage
+
+	if err := json.Unmarshal(text, &raws); err != nil || clients < 1 {
+		fmt.Fprintf(w, "%d C err decode\n", idx)
+
+		return
+	}
+
+	values := make([]any, len(raws))
+	wants := make([][]byte, len(raws))
+
+	for k, raw := range raws {
+		dec := json.NewDecoder(bytes.NewReader(raw))
+		dec.UseNumber()
+
+		if err := dec.Decode(&values[k]); err != nil {
+			fmt.Fprintf(w, "%d C err decode\n", idx)
+
+			return
+		}
+
+		wants[k], _ = json.Marshal(values[k])
+	}
+
+	settings.SetDefault(defs.ServerCompressionThresholdSetting, "4096")
+
+	req := httptest.NewRequest(http.MethodGet, "/x", nil)
+	req.Header.Set("Accept-Encoding", "gzip")
+	accepts := AcceptsGzip(req)
+
+	bad := make([]bool, len(values))
+	zipped := make([]bool, len(values))
+
+	var wg sync.WaitGroup
+
+	for c := 0; c < clients; c++ {
+		wg.Add(1)
+
+		go func(c int) {
+			defer wg.Done()
+
+			for k := c; k < len(values); k += clients {
+				length := 0
+				sw := &verifC19SlowWriter{header: http.Header{}}
+				WriteJSON(sw, ResponseInfo{SessionID: k, AcceptsGzip: accepts, Length: &length}, http.StatusOK, values[k])
+
+				got := sw.body.Bytes()
+
+				if strings.EqualFold(sw.header.Get("Content-Encoding"), "gzip") {
+					zipped[k] = true
+
+					zr, err := gzip.NewReader(bytes.NewReader(got))
+					if err != nil {
+						bad[k] = true
+
+						continue
+					}
+
+					if got, err = io.ReadAll(zr); err != nil {
+						bad[k] = true
+
+						continue
+					}
+				}
+
+				if !bytes.Equal(got, wants[k]) || sw.status != http.StatusOK || length != sw.body.Len() {
+					bad[k] = true
+				}
+			}
+		}(c)
+	}
+
+	wg.Wait()
+
+	list, nz := []string{}, 0
+
+	for k := range values {
+		if bad[k] {
+			list = append(list, fmt.Sprint(k))
+		}
+
+		if zipped[k] {
+			nz++
+		}
+	}
+
+	res := "-"
+	if len(list) > 0 {
+		res = strings.Join(list, ",")
+	}
+
+	fmt.Fprintf(w, "%d C %d %d %s\n", idx, len(values), nz, res)
 }
 
 func verifC19Hex(b []byte) string {
